@@ -4,6 +4,9 @@ from .core import *
 from .symexec import Raise, Unsupported, EnumerateOf, FuncRef, BuiltinRef, repr_str, Opaque
 from . import source as S
 
+import itertools as _it
+_ix = _it.count()
+
 def call(ex, st, fn, args, kw, node):
     name = fn.name
     bc = ex.contracts.get("builtin:" + name)
@@ -19,8 +22,12 @@ def call(ex, st, fn, args, kw, node):
         yield st, Sym(STR, ex.absfun_s("path_basename", [z3.StringSort()], z3.StringSort())(args[0].z)); return
     if name == "len":
         v = args[0]
+        if v is None or isinstance(v, (int, bool)) and not isinstance(v, str):
+            yield st, Raise(ex.new_builtin_exc(st, "TypeError", ["object of type '%s' has no len()" % type(v).__name__])); return
         if isinstance(v, Sym) and v.ty.kind == "opt":
-            if feasible(st.pc, sort_of(v.ty).is_none(v.z)): raise Unsupported("len(None) feasible")
+            if feasible(st.pc, sort_of(v.ty).is_none(v.z)):
+                sb = st.copy(); sb.pc.append(sort_of(v.ty).is_none(v.z)); yield sb, Raise(ex.new_builtin_exc(sb, "TypeError", ["object of type 'NoneType' has no len()"]))
+                st.pc.append(z3.Not(sort_of(v.ty).is_none(v.z)))
             v = opt_payload(v)
         if isinstance(v, UFL): yield st, Sym(INT, v.length); return
         if isinstance(v, UFDict): yield st, Sym(INT, v.size); return
@@ -287,6 +294,17 @@ def method(ex, st, recv, name, args, kw, node=None):
         item = lift_to(recv.elem_ty, rl.item if recv.elem_ty.kind in ("tuple", "opt") else unopt(rl.item))
         new = UFL(recv.elem_ty, (lambda i, r=recv, item=item, n0=n0: z3.If(i >= n0, item, r.at(i))), n0 + z3.If(cnt > 0, cnt, 0))
         for s2, _ in ex.assign(st, tgt, new): yield s2, None
+        return
+    if isinstance(recv, UFL) and name == "index" and len(args) == 1:
+        # list.index(x): the first position holding x, or ValueError when no position does
+        x = lift_to(recv.elem_ty, args[0] if recv.elem_ty.kind in ("tuple", "opt") else unopt(args[0])); n0 = recv.length
+        i, _ = fresh(INT, "index"); j = z3.Int("j!ix%d" % next(_ix))
+        found = z3.And(i.z >= 0, i.z < n0, recv.at(i.z) == x, z3.ForAll([j], z3.Implies(z3.And(0 <= j, j < i.z), recv.at(j) != x)))
+        absent = z3.ForAll([j], z3.Implies(z3.And(0 <= j, j < n0), recv.at(j) != x))
+        sb = st.copy(); sb.pc.append(absent)
+        if feasible(sb.pc): yield sb, Raise(ex.new_builtin_exc(sb, "ValueError", ["value is not in list"]))
+        st.pc.append(found)
+        if feasible(st.pc): yield st, i
         return
     if isinstance(recv, UFL) and name == "insert" and len(args) == 2:
         tgt = node.func.value; k = lift(args[0]).z; item = lift_to(recv.elem_ty, args[1] if recv.elem_ty.kind in ("tuple", "opt") else unopt(args[1])); n0 = recv.length
